@@ -138,12 +138,18 @@ class ScopedProtocol:
     """C08: enter the scope, use the handle (also inside a nested scope and through a closing tool), leave"""
     def available(self, H):
         if "S" not in H:
-            return ["enter"] if "done" not in H else (["next(S0)"] if "S0" in H and "after" not in H else [])
-        ops = ["next(S)", "close(S)", "tool(S)", "exit:none", "exit:raise"]
+            if "done" not in H:
+                return ["enter"]
+            # after the block: the handle is dead for every way of advancing it
+            return (["next(S0)"] + (["asend(S0)", "athrow(S0)"] if "gen" in H else [])) if "S0" in H else []
+        ops = ["next(S)", "close(S)", "tool(S)", "exit:none", "exit:raise"] + (["asend(S)"] if "gen" in H else [])
         if "inner" not in H and "nested" not in H:
             ops.append("enter-nested")
         if "inner" in H:
             ops = ["next(S2)", "close(S2)", "next(S)", "exit-nested"]
+        elif "D" in H:
+            # the handle of an ended nested scope, while the enclosing scope is still open: dead for every way of advancing it
+            ops += ["next(D)"] + (["asend(D)", "athrow(D)"] if "gen" in H else [])
         return ops
 
     def perform(self, ip, H, op):
@@ -157,8 +163,24 @@ class ScopedProtocol:
             return r
         if op == "enter":
             H["S"] = yield from cm_call(H["self"], "enter", [])
+            if ip.env.sources["a"].kind == "gen":
+                H["gen"] = "1"      # the underlying iterator has asend/athrow: the handle forwards them while it is open
             return None
-        if op in ("next(S)", "next(S2)", "next(S0)"):
+        if op.startswith("asend(") or op.startswith("athrow("):
+            h = H[op[op.index("(") + 1:-1]]
+            env = ip.env
+            if op.startswith("athrow("):
+                if "thrown" not in env.block_exc:
+                    env.block_exc["thrown"] = ExcVal("UserError2", ident=("thrown",), origin="env")
+                arg = env.block_exc["thrown"]
+            else:
+                arg = env.val("sent")
+            name = "asend" if op.startswith("asend(") else "athrow"
+            if impl:
+                r = yield from ip.call(ip.getattr(h, name), [arg], {})
+                return (yield from ip.await_(r))
+            return (yield from ip.call(ip.getattr(h, name[1:]), [arg], {}))
+        if op in ("next(S)", "next(S2)", "next(S0)", "next(D)"):
             return (yield from _pull(ip, H[op[5:-1]]))
         if op in ("close(S)", "close(S2)"):
             yield from _aclose(ip, H[op[6:-1]])
@@ -185,7 +207,7 @@ class ScopedProtocol:
         if op == "exit-nested":
             yield from cm_call(H["inner"], "exit", [None, None, None])
             del H["inner"]
-            del H["S2"]
+            H["D"] = H.pop("S2")
             return None
         if op.startswith("exit:"):
             if op.endswith("raise"):
@@ -196,9 +218,12 @@ class ScopedProtocol:
                 args = [ExcClass(e.cls), e, Sentinel("traceback")]
             else:
                 args = [None, None, None]
-            r = yield from cm_call(H["self"], "exit", args)
+            # the block is left whether or not the exit itself fails (the underlying iterator's aclose may raise)
             H["S0"] = H.pop("S")
             H["done"] = "1"
+            for k in ("inner", "S2", "D"):
+                H.pop(k, None)
+            r = yield from cm_call(H["self"], "exit", args)
             from pyvc.interp import to_bool, mk_bool
             b = to_bool(ip.ctx, r)
             return ("suppress", b if isinstance(b, bool) else mk_bool(b))
@@ -210,7 +235,7 @@ class ScopedProtocol:
             return []       # a plain iterable: the library closes only its own wrapper; items/ends are compared by the events
         if op.startswith("exit:"):
             return [("closed-exactly-once-at-exit", U.closes == 1, f"leaving the outermost scope closed the underlying iterator {U.closes} times")]
-        if op == "next(S0)":
+        if op.endswith("(S0)"):
             return [("closed-exactly-once-at-exit", U.closes == 1, "the underlying iterator was closed again after the scope")]
         return [("not-closed-inside-block", U.closes == 0, f"the underlying iterator was closed inside the block (after {op})")]
 
@@ -229,9 +254,9 @@ def _borrow_jobs():
                        opts={"protocol": BorrowProtocol(), "handles": {"mk": ((AT, "borrow"), (RA, "borrow")), "tool": (("builtins", "enumerate"), None)},
                              "under_contract": [(AT, "borrow"), (AT, "_BorrowedAsyncIterator")]}))
         if kind != "throwonly":
-          out.append(Job(f"scoped_iter[{kind}]", (AT, "scoped_iter"), (RA, "scoped_iter"), mk, kind="protocol", props=("C08", "C18"), faults=False, closes=False, release=False,
+          out.append(Job(f"scoped_iter[{kind}]", (AT, "scoped_iter"), (RA, "scoped_iter"), mk, kind="protocol", props=("C08", "C18", "C07", "C03"), faults=False, closes=False, release=False,
                        overrides="none",
-                       opts={"protocol": ScopedProtocol(), "handles": {"mk": ((AT, "scoped_iter"), (RA, "scoped_iter")), "tool": (("builtins", "enumerate"), None)},
+                       opts={"protocol": ScopedProtocol(), "aclose_faults": True, "handles": {"mk": ((AT, "scoped_iter"), (RA, "scoped_iter")), "tool": (("builtins", "enumerate"), None)},
                              "under_contract": [(AT, "scoped_iter"), (AT, "_ScopedAsyncIteratorContext"), (AT, "_ScopedAsyncIterator"), (AT, "_BorrowedAsyncIterator")]}))
     return out
 
